@@ -214,6 +214,14 @@ func Carry(v *big.Rat, k reflect.Kind) (any, bool) {
 
 // numberNear picks a rational near the constraints of d.
 func (g *SimpleGen) numberNear(d *SimpleDef, flip float64) *big.Rat {
+	if d.Type == "integer" && g.R.P(0.05) {
+		// the edges of the integer formats and of the Go integer kinds (only the wide carriers can hold them)
+		r, _ := new(big.Rat).SetString([]string{
+			"2147483647", "2147483648", "-2147483648", "-2147483649", "4294967295", "4294967296",
+			"9223372036854775807", "9223372036854775808", "-9223372036854775808", "18446744073709551615", "9223372036854775809",
+		}[g.R.Intn(11)])
+		return r
+	}
 	var cands []*big.Rat
 	deltas := []string{"0", "1", "-1", "0.5", "-0.5", "0.25", "2"}
 	for _, b := range []*float64{d.Minimum, d.Maximum} {
@@ -298,9 +306,22 @@ func (g *SimpleGen) Value(d *SimpleDef, flip float64) any {
 			v = new(big.Rat).SetInt(new(big.Int).Quo(v.Num(), v.Denom()))
 		}
 		// choose a carrier which represents the value exactly
-		for try := 0; try < 6; try++ {
+		// (beyond +-2^53 only integer kinds: a float is not a JSON integer there, by the library's stated limit)
+		big53 := new(big.Rat).Abs(v).Cmp(new(big.Rat).SetInt64(1<<53)) > 0
+		for try := 0; try < 12; try++ {
 			k := NumKinds[g.R.Intn(len(NumKinds))]
+			if big53 && (k == reflect.Float32 || k == reflect.Float64) {
+				continue
+			}
 			if c, ok := Carry(v, k); ok {
+				return c
+			}
+		}
+		if big53 {
+			if c, ok := Carry(v, reflect.Uint64); ok {
+				return c
+			}
+			if c, ok := Carry(v, reflect.Int64); ok {
 				return c
 			}
 		}
